@@ -1,12 +1,16 @@
-(* ExecStreamsInv.v -- the stage-2 hook of the executor (model/ExecStreams.v: [stream_instr]) and the
-   farewell compactification ([finish_streams]) under the generic induction principle of ExecInv.v:
+(* ExecStreamsInv.v -- the stage-2 hook of the executor (model/ExecStreams.v: [stream_instr]: streams,
+   stream maps, the three canon instructions, new, stream folds) and the farewell compactification
+   ([finish_streams]) under the generic induction principle of ExecInv.v:
 
+     stream_instr_preserves_call : frame_invariant R -> (forward hypothesis) -> hook_preserves R stream_instr
      stream_instr_preserves : exec_invariant R -> hook_preserves R stream_instr
      exec2_inv              : exec_invariant R -> forall fuel i x, res_sat R x (exec stream_instr fuel i x)
      finish_streams_inv     : frame_invariant R -> finish_streams x = inl y -> R x y
+     finish_streams_frame   : finish_streams x = inl y -> frame x y
 
-   The only non-frame step of the stream instructions is handle_unseen_canon, which pushes the
-   designated peer (different from the current one) to the next peers: [ei_forward].
+   The only non-frame step of the stream instructions is handle_unseen_canon (shared by canon,
+   canon map and canon-map-scalar), which pushes the designated peer (different from the current
+   one) to the next peers: [ei_forward].
    Kept apart from ExecInv.v so that a change of ExecStreams.v cannot break the stage-1 users. *)
 From Coq Require Import Lia.
 From Aqua Require Import Base Json Air Trace Handler Values Scalars Lens Exec RunExec ExecStreams CallSpec ExecInv.
@@ -16,12 +20,27 @@ Open Scope list_scope.
 
 Section StreamsInv.
   Variable R : ctx -> ctx -> Prop.
-  Hypothesis HE : exec_invariant R.
+  Hypothesis HF : frame_invariant R.
 
-  Let HF := ei_frame R HE.
   Let Rrefl := fi_refl R HF.
   Let Rtrans := fi_trans R HF.
 
+  Lemma si_with_table t x m : R x (with_table t x m).
+  Proof. destruct t; apply (fi_set_ext R HF). Qed.
+
+  Lemma si_set_canon_value x name c y : set_canon_value x name c = POk y -> R x y.
+  Proof.
+    unfold set_canon_value. destruct (Scalars.set_value canon_wp (x_canons x) name c) as [[m b] |]; intros E; inversion E; subst.
+    apply (fi_set_canons R HF).
+  Qed.
+
+  Lemma si_set_canon_map_value x name c y : set_canon_map_value x name c = POk y -> R x y.
+  Proof.
+    unfold set_canon_map_value. destruct (Scalars.set_value canon_map_wp _ name c) as [[m b] |]; intros E; inversion E; subst.
+    apply (fi_set_ext R HF).
+  Qed.
+
+  (* R-chains, as in ExecInv.v, with the updates of ExecStreams.v *)
   Ltac rch :=
     match goal with
     | |- R ?x ?x => apply Rrefl
@@ -37,15 +56,61 @@ Section StreamsInv.
     | |- R ?x (set_fold_counter ?y _) => apply (Rtrans x y); [rch | apply (fi_set_fold_counter R HF)]
     | |- R ?x (set_ext ?y _) => apply (Rtrans x y); [rch | apply (fi_set_ext R HF)]
     | |- R ?x (with_streams ?y _) => apply (Rtrans x y); [rch | apply (fi_set_ext R HF)]
-    | |- R ?x (put_stream ?y _ _ _) => apply (Rtrans x y); [rch | apply (fi_set_ext R HF)]
+    | |- R ?x (with_canon_maps ?y _) => apply (Rtrans x y); [rch | apply (fi_set_ext R HF)]
+    | |- R ?x (with_table _ ?y _) => apply (Rtrans x y); [rch | apply si_with_table]
+    | |- R ?x (put_in _ ?y _ _ _) => apply (Rtrans x y); [rch | apply si_with_table]
+    | |- R ?x (put_stream ?y _ _ _) => apply (Rtrans x y); [rch | apply si_with_table]
+    | |- R ?x (all_fold_start ?y) => unfold all_fold_start; rch
+    | |- R ?x (all_fold_end ?y) => unfold all_fold_end; rch
+    | |- R ?x (all_next_before ?y) => unfold all_next_before; rch
+    | |- R ?x (all_next_after ?y) => unfold all_next_after; rch
     | |- R ?x (make_incomplete ?y) => apply (Rtrans x y); [rch | apply (fi_make_incomplete R HF)]
     | |- R ?x (flush_complete ?y) => apply (Rtrans x y); [rch | apply (fi_flush_complete R HF)]
     | |- R ?x (call_end ?y _) => apply (Rtrans x y); [rch | apply (fi_call_end R HF)]
     | |- R ?x (record_cid ?y _ _) => apply (Rtrans x y); [rch | apply (fi_record_cid R HF)]
+    | H : set_canon_value ?z _ _ = POk ?y |- R ?x ?y => apply (Rtrans x z); [rch | apply (si_set_canon_value _ _ _ _ H)]
+    | H : set_canon_map_value ?z _ _ = POk ?y |- R ?x ?y => apply (Rtrans x z); [rch | apply (si_set_canon_map_value _ _ _ _ H)]
+    | H : set_scalar_value ?z _ _ = POk ?y |- R ?x ?y => apply (Rtrans x z); [rch | apply (fi_set_scalar_value' R HF _ _ _ _ H)]
+    | H : add_stream_value ?z _ _ _ _ = POk ?y |- R ?x ?y => apply (Rtrans x z); [rch | apply (fi_add_stream_value' R HF _ _ _ _ _ _ H)]
     | H : R ?z ?y |- R ?x ?y => apply (Rtrans x z); [rch | exact H]
     end.
 
-  Let sat_trans := res_sat_trans R HE.
+  Lemma sat_trans x y r : R x y -> res_sat R y r -> res_sat R x r.
+  Proof. intros H. destruct r; cbn [res_sat]; auto; intros H2; rch. Qed.
+
+  (* destruct every scrutinee of the goal, innermost first; never a sub-instruction *)
+  Ltac dms :=
+    match goal with
+    | |- context [match ?d with _ => _ end] =>
+        lazymatch d with
+        | context [match _ with _ => _ end] => fail
+        | _ => lazymatch type of d with
+               | instr => fail
+               | _ => destruct d eqn:?
+               end
+        end
+    end.
+  Lemma si_lift' {A} x y (r : pres A) k :
+    R x y -> (forall a, r = POk a -> res_sat R x (k a)) -> res_sat R x (lift y r k).
+  Proof. intros Hy H. destruct r; cbn [lift res_sat]; auto. Qed.
+  Lemma si_with_handler' {A} x y (r : res A) k :
+    R x y -> (forall a, r = Ok a -> res_sat R x (k a)) -> res_sat R x (with_handler y r k).
+  Proof. intros Hy H. destruct r; cbn [with_handler res_sat]; auto. Qed.
+
+  Ltac step :=
+    first [ match goal with |- res_sat R ?x (with_handler ?y _ _) => apply (si_with_handler' x y); [rch | intros ? _] end
+          | match goal with |- res_sat R ?x (lift ?y _ _) => apply (si_lift' x y); [rch | intros ? ?] end
+          | dms ].
+  (* equations left by si_lift': a local pres-valued match that answered POk *)
+  Ltac hyps :=
+    repeat match goal with
+           | H : (match ?d with _ => _ end) = POk _ |- _ => destruct d eqn:?; try discriminate H
+           | H : POk _ = POk _ |- _ => inversion H; subst; clear H
+           end.
+  Ltac crush := cbn [res_sat pres_sat fst snd];
+                repeat (step; cbn [res_sat pres_sat fst snd]);
+                hyps;
+                first [exact I | discriminate | rch].
 
   Lemma si_with_trace x r k :
     (forall y, R x y -> res_sat R x (k y)) -> res_sat R x (with_trace x r k).
@@ -54,33 +119,20 @@ Section StreamsInv.
   Qed.
 
   Lemma si_exec_ap_stream x a sv : res_sat R x (exec_ap_stream x a sv).
-  Proof.
-    unfold exec_ap_stream. destruct (apply_to_arg x a true); cbn [res_sat]; auto.
-    - apply (fi_with_handler R HF). intros rh _.
-      destruct (add_stream_value (set_handler x (snd rh)) (v_name sv) a0 _ (v_pos sv)) eqn:E; cbn [res_sat]; auto.
-      + pose proof (fi_add_stream_value' R HF _ _ _ _ _ _ E). rch.
-      + rch.
-    - destruct (is_joinable e); cbn [res_sat]; rch.
-  Qed.
+  Proof. unfold exec_ap_stream. crush. Qed.
 
-  Lemma si_set_canon_value x name c y : set_canon_value x name c = POk y -> R x y.
-  Proof.
-    unfold set_canon_value. destruct (Scalars.set_value canon_wp (x_canons x) name c) as [[m b] |]; intros E; inversion E; subst.
-    rch.
-  Qed.
+  Lemma si_exec_ap_map x k a m : res_sat R x (exec_ap_map x k a m).
+  Proof. unfold exec_ap_map. crush. Qed.
 
-  Lemma si_canon_epilog x name values t c : res_sat R x (canon_epilog x name values t c).
-  Proof.
-    unfold canon_epilog. apply (fi_lift R HF). intros y E. cbn [res_sat].
-    pose proof (si_set_canon_value _ _ _ _ E). rch.
-  Qed.
+  Lemma si_canon_epilog k x values t c : res_sat R x (canon_epilog k x values t c).
+  Proof. unfold canon_epilog. crush. Qed.
 
-  Lemma si_create_canon_first_time x stream name peer : res_sat R x (create_canon_first_time x stream name peer).
+  Lemma si_create_canon_first_time k tb x stream peer : res_sat R x (create_canon_first_time k tb x stream peer).
   Proof.
     unfold create_canon_first_time. eapply sat_trans; [| apply si_canon_epilog]. rch.
   Qed.
 
-  Lemma si_handle_canon_executed x p name c : res_sat R x (handle_canon_executed x p name c).
+  Lemma si_handle_canon_executed k x p c : res_sat R x (handle_canon_executed k x p c).
   Proof.
     unfold handle_canon_executed. apply (fi_lift R HF). intros peer _.
     destruct (negb (cid_mem c (cs_canon_results (x_cids x)))); cbn [res_sat]; [rch |].
@@ -91,15 +143,35 @@ Section StreamsInv.
     eapply sat_trans; [| apply si_canon_epilog]. rch.
   Qed.
 
-  Lemma si_exec_canon x p stream canon : res_sat R x (exec_canon x p stream canon).
+  Lemma si_run_compact_plan x pl : res_sat R x (run_compact_plan x pl).
+  Proof. unfold run_compact_plan. crush. Qed.
+
+  Lemma si_compactify_table t x : res_sat R x (compactify_table t x).
   Proof.
-    unfold exec_canon. apply (fi_with_handler R HF). intros rh _.
+    unfold compactify_table. destruct (Stream.streams_compactify vagg va_pos _ (table_of t x)) as [m pl].
+    eapply sat_trans; [| apply si_run_compact_plan]. rch.
+  Qed.
+
+  Lemma si_new_stream_epilog t x name : res_sat R x (new_stream_epilog t x name).
+  Proof.
+    unfold new_stream_epilog.
+    destruct (Stream.streams_meet_scope_end vagg va_pos (table_of t x) name) as [[[m b] pl] | e | s]; cbn [res_sat]; auto; try rch.
+    eapply sat_trans; [| apply si_run_compact_plan]. rch.
+  Qed.
+
+  (* ---------------------------------------------------------------------------------------- *)
+  (* handle_unseen_canon is the one step that is not a frame *)
+  Hypothesis Hfwd : forall x p, String.eqb p (current_peer x) = false -> R x (set_next_peers x (x_next_peers x ++ [p])).
+
+  Lemma si_exec_canon_generic k tb x p stream : res_sat R x (exec_canon_generic k tb x p stream).
+  Proof.
+    unfold exec_canon_generic. apply (fi_with_handler R HF). intros rh _.
     set (x0 := set_handler x (snd rh)). assert (H0 : R x x0) by (unfold x0; rch).
     destruct (fst rh) as [| r].
     - destruct (resolve_peer_id_to_string x0 p) as [peer | e | s | w]; cbn [res_sat]; auto.
       + destruct (negb (String.eqb (current_peer x0) peer)) eqn:Ep; cbn [res_sat].
         * apply Bool.negb_true_iff in Ep. rewrite String.eqb_sym in Ep.
-          pose proof (ei_forward R HE (make_incomplete x0) peer Ep) as Hf.
+          pose proof (Hfwd (make_incomplete x0) peer Ep) as Hf.
           change (x_next_peers (make_incomplete x0)) with (x_next_peers x0) in Hf. rch.
         * eapply sat_trans; [exact H0 | apply si_create_canon_first_time].
       + destruct (is_joinable e); cbn [res_sat]; rch.
@@ -107,18 +179,6 @@ Section StreamsInv.
       + apply (sat_trans _ _ _ H0). apply (fi_lift R HF). intros peer _.
         destruct (negb (String.eqb (current_peer x0) peer)); cbn [res_sat]; [rch | apply si_create_canon_first_time].
       + eapply sat_trans; [exact H0 | apply si_handle_canon_executed].
-  Qed.
-
-  Lemma si_run_compact_plan x pl : res_sat R x (run_compact_plan x pl).
-  Proof.
-    unfold run_compact_plan. destruct (Stream.run_plan _ _ pl); cbn [res_sat]; auto; rch.
-  Qed.
-
-  Lemma si_new_stream_epilog x name : res_sat R x (new_stream_epilog x name).
-  Proof.
-    unfold new_stream_epilog.
-    destruct (Stream.streams_meet_scope_end vagg va_pos (streams_of x) name) as [[[m b] pl] | e | s]; cbn [res_sat]; auto; try rch.
-    eapply sat_trans; [| apply si_run_compact_plan]. rch.
   Qed.
 
   (* ---------------------------------------------------------------------------------------- *)
@@ -130,27 +190,26 @@ Section StreamsInv.
     | |- context [match run ?a ?z with _ => _ end] =>
         let H := fresh "HI" in
         pose proof (Hrun a z) as H; destruct (run a z) eqn:?; cbn [res_sat] in H
-    | |- context [match ?d with _ => _ end] =>
-        lazymatch d with
-        | context [match _ with _ => _ end] => fail
-        | _ => destruct d eqn:?
-        end
+    | |- context [match new_stream_epilog ?t ?y ?n with _ => _ end] =>
+        let H := fresh "HE" in
+        pose proof (si_new_stream_epilog t y n) as H; destruct (new_stream_epilog t y n) eqn:?; cbn [res_sat] in H
+    | _ => step
     end.
+  Ltac crushr := cbn [res_sat pres_sat fst snd];
+                 repeat (dmr; cbn [res_sat pres_sat fst snd]);
+                 hyps;
+                 first [exact I | discriminate | rch
+                       | eapply sat_trans; [| apply si_new_stream_epilog]; rch
+                       | eapply sat_trans; [| apply Hrun]; rch ].
 
-  Lemma si_exec_new_stream x sv body sp : res_sat R x (exec_new_stream run x sv body sp).
-  Proof.
-    unfold exec_new_stream.
-    match goal with |- context [run body ?z] => pose proof (Hrun body z) as HI; destruct (run body z) as [y | e y | | |] end;
-      cbn [res_sat] in *; auto.
-    - eapply sat_trans; [| apply si_new_stream_epilog]. rch.
-    - pose proof (si_new_stream_epilog y (v_name sv)) as H2.
-      destruct (new_stream_epilog y (v_name sv)); cbn [res_sat] in *; auto; rch.
-  Qed.
+  Lemma si_exec_new_stream t x sv body sp : res_sat R x (exec_new_stream t run x sv body sp).
+  Proof. unfold exec_new_stream. crushr. Qed.
+
+  Lemma si_exec_new_canon_map x v body : res_sat R x (exec_new_canon_map run x v body).
+  Proof. unfold exec_new_canon_map. crushr. Qed.
 
   Lemma si_fold_batch x batch fold_id iter body last : res_sat R x (fold_batch run x batch fold_id iter body last).
-  Proof.
-    unfold fold_batch. repeat dmr; cbn [res_sat]; auto; rch.
-  Qed.
+  Proof. unfold fold_batch. crushr. Qed.
 
   Lemma si_execute_iterations batches : forall x fold_id iter body last observed,
     res_sat R x (fst (execute_iterations run x batches fold_id iter body last observed)).
@@ -176,28 +235,28 @@ Section StreamsInv.
       + destruct (is_catchable e); [apply Hafter; rch | cbn [fst res_sat]; rch].
   Qed.
 
-  Lemma si_fold_stream_loop n : forall x st rc sv iter body last fold_id observed,
-    res_sat R x (fst (fold_stream_loop n run x st rc sv iter body last fold_id observed)).
+  Lemma si_fold_stream_loop t n : forall x st rc sv iter body last fold_id observed,
+    res_sat R x (fst (fold_stream_loop t n run x st rc sv iter body last fold_id observed)).
   Proof.
     induction n as [| n IH]; intros x st rc sv iter body last fold_id observed;
       destruct st as [batches |]; cbn [fold_stream_loop fst res_sat]; auto; try rch.
     pose proof (si_execute_iterations batches x fold_id iter body last observed) as He.
     destruct (execute_iterations run x batches fold_id iter body last observed) as [r obs].
     destruct r as [y | e y | | |]; cbn [fst res_sat] in *; auto.
-    destruct (get_stream y (v_name sv) (v_pos sv)) as [s |]; cbn [fst res_sat]; auto.
+    destruct (get_in t y (v_name sv) (v_pos sv)) as [s |]; cbn [fst res_sat]; auto.
     destruct (Stream.met_iteration_end vagg rc s) as [[[st' rc'] s'] | e | c]; cbn [fst res_sat]; auto.
     eapply sat_trans; [| apply IH]. rch.
   Qed.
 
-  Lemma si_exec_fold_stream x sv iter body last : res_sat R x (exec_fold_stream run x sv iter body last).
+  Lemma si_exec_fold_stream t x sv iter body last : res_sat R x (exec_fold_stream t run x sv iter body last).
   Proof.
-    unfold exec_fold_stream. destruct (get_stream x (v_name sv) (v_pos sv)) as [s |]; cbn [res_sat]; [| rch].
+    unfold exec_fold_stream. destruct (get_in t x (v_name sv) (v_pos sv)) as [s |]; cbn [res_sat]; [| rch].
     eapply sat_trans with (y := set_fold_counter x (x_fold_counter x + 1)); [rch |].
     apply si_with_trace. intros x2 H2.
     destruct (Stream.met_fold_start vagg Stream.rcursor_new s) as [[[st rc] s'] | e | c]; cbn [res_sat]; auto.
-    pose proof (si_fold_stream_loop fold_rounds (put_stream x2 (v_name sv) (v_pos sv) s') st rc sv iter body last
+    pose proof (si_fold_stream_loop t fold_rounds (put_in t x2 (v_name sv) (v_pos sv) s') st rc sv iter body last
                                     (x_fold_counter x + 1) false) as Hl.
-    destruct (fold_stream_loop fold_rounds run _ st rc sv iter body last (x_fold_counter x + 1) false) as [r obs].
+    destruct (fold_stream_loop t fold_rounds run _ st rc sv iter body last (x_fold_counter x + 1) false) as [r obs].
     destruct r as [y | e y | | |]; cbn [fst res_sat] in *; auto; try rch.
     eapply sat_trans with (y := set_complete y obs); [rch |].
     apply si_with_trace. intros y2 Hy2. cbn [res_sat]. exact Hy2.
@@ -222,19 +281,25 @@ Section StreamsInv.
 
   Lemma si_stream_instr i x r : stream_instr run i x = Some r -> res_sat R x r.
   Proof.
-    unfold stream_instr. destruct i; try discriminate.
-    - destruct r0; [discriminate |]. intros E; inversion E; subst. apply si_exec_ap_stream.
-    - intros E; inversion E; subst. apply si_exec_canon.
-    - intros E; inversion E; subst. apply si_exec_fold_stream.
-    - destruct a; try discriminate. intros E; inversion E; subst. apply si_exec_new_stream.
-    - destruct (iter_get (x_iterables x) (v_name iter)) as [fs |]; [| discriminate].
-      destruct (fs_type fs); [discriminate |]. intros E; inversion E; subst. apply si_exec_next_stream.
+    unfold stream_instr.
+    destruct i; try discriminate;
+      repeat match goal with |- context [match ?d with _ => _ end] => destruct d end; try discriminate;
+      intros E; inversion E; subst;
+      first [ apply si_exec_ap_stream | apply si_exec_ap_map | apply si_exec_canon_generic | apply si_exec_fold_stream
+            | apply si_exec_new_stream | apply si_exec_new_canon_map | apply si_exec_next_stream ].
   Qed.
 
 End StreamsInv.
 
+(* with exactly the two hypotheses the stream instructions use *)
+Theorem stream_instr_preserves_call R :
+  frame_invariant R ->
+  (forall x p, String.eqb p (current_peer x) = false -> R x (set_next_peers x (x_next_peers x ++ [p]))) ->
+  hook_preserves R stream_instr.
+Proof. intros HF Hfw run Hrun i x r E. apply (si_stream_instr R HF Hfw run Hrun i x r E). Qed.
+
 Theorem stream_instr_preserves R : exec_invariant R -> hook_preserves R stream_instr.
-Proof. intros HE run Hrun i x r E. apply (si_stream_instr R HE run Hrun i x r E). Qed.
+Proof. intros HE. apply (stream_instr_preserves_call R (ei_frame R HE) (ei_forward R HE)). Qed.
 
 Theorem exec2_inv R : exec_invariant R -> forall fuel i x, res_sat R x (exec stream_instr fuel i x).
 Proof. intros HE. apply (exec_inv R HE stream_instr (stream_instr_preserves R HE)). Qed.
@@ -242,10 +307,13 @@ Proof. intros HE. apply (exec_inv R HE stream_instr (stream_instr_preserves R HE
 Lemma finish_streams_inv R : frame_invariant R -> forall x y, finish_streams x = inl y -> R x y.
 Proof.
   intros HF x y. unfold finish_streams.
-  destruct (Stream.streams_compactify vagg va_pos _ (streams_of x)) as [m pl].
-  unfold run_compact_plan. destruct (Stream.run_plan _ _ pl); try discriminate.
-  intros E. inversion E; subst.
-  apply (fi_trans R HF _ (with_streams x m)); [apply (fi_set_ext R HF) | apply (fi_set_handler R HF)].
+  pose proof (si_compactify_table R HF TStreams x) as H1.
+  destruct (compactify_table TStreams x) as [x1 | e x1 | | |]; cbn [res_sat] in H1;
+    try discriminate; [| destruct e; discriminate].
+  pose proof (si_compactify_table R HF TMaps x1) as H2.
+  destruct (compactify_table TMaps x1) as [x2 | e x2 | | |]; cbn [res_sat] in H2;
+    try discriminate; [| destruct e; discriminate].
+  intros E. inversion E; subst. apply (fi_trans R HF _ _ _ H1 H2).
 Qed.
 
 Lemma finish_streams_frame x y : finish_streams x = inl y -> frame x y.
